@@ -80,7 +80,15 @@ func (r *replayer) binary(dir string) (string, error) {
 	ovFile := filepath.Join(r.scratch, strings.ReplaceAll(dir, "/", "_")+"_overlay.json")
 	os.WriteFile(ovFile, ovj, 0644)
 	bin := filepath.Join(r.scratch, strings.ReplaceAll(dir, "/", "_")+".test")
-	cmd := exec.Command("go", "test", "-c", "-vet=off", "-overlay", ovFile, "-o", bin, "./"+dir)
+	argv := []string{"test", "-c", "-vet=off", "-overlay", ovFile, "-o", bin}
+	for _, h := range r.hfs {
+		if h.Dir == dir && bytes.Contains(h.Src, []byte("\n//vf:race")) {
+			argv = append(argv, "-race")
+			break
+		}
+	}
+	argv = append(argv, "./"+dir)
+	cmd := exec.Command("go", argv...)
 	cmd.Dir = repoDir
 	cmd.Env = goEnv()
 	out, err := cmd.CombinedOutput()
@@ -177,6 +185,11 @@ func confirmed(v *Violation, rr *replayResult) (bool, string) {
 			return true, ""
 		}
 		return false, "native run did not panic"
+	case "race":
+		if strings.Contains(rr.Out, "DATA RACE") {
+			return true, ""
+		}
+		return false, "the race detector reported nothing"
 	case "deadlock":
 		if rr.Deadlock || rr.TimedOut || rr.Fatal {
 			return true, ""
